@@ -688,6 +688,7 @@ func (c *Ctx) c07Marshal(l *c07Local, r *rand.Rand, sh c07Shape, o c07Opt, maxFa
 			l.writes("MarshalEncode", we.sizes)
 		}
 		c.c07CheckEq("differs", "MarshalEncode/"+vname+":"+op, wantNL, got, det("writes", we.sizes))
+		c.c07NothingBuffered("MarshalEncode/"+vname+":"+op, enc, len(got), variant != 2, det)
 	}
 
 	// P3 every fault position x mode (positions capped at maxFaults random ones when there are more)
@@ -763,6 +764,157 @@ func (c *Ctx) c07Marshal(l *c07Local, r *rand.Rand, sh c07Shape, o c07Opt, maxFa
 			c.c07CheckEq("differs", "MarshalWrite/after-fault:"+op, w2want, w2.acc, det())
 		}
 	}
+}
+
+// c07NothingBuffered is the proved `faultfree_top_level_flushes_all` evaluated on the implementation: after a call
+// that completed a top-level value on a fault-free writer, every byte has reached the writer (OutputOffset equals the
+// number of bytes delivered, and for a non-bytes.Buffer writer the internal buffer is empty).
+func (c *Ctx) c07NothingBuffered(op string, enc *jsontext.Encoder, delivered int, plain bool, det func(kv ...any) map[string]any) {
+	var off int64
+	var buffered, depth int
+	if p := guard(func() {
+		off = enc.OutputOffset()
+		depth = enc.StackDepth()
+		buffered = len(c07export.Encoder(enc).Buf)
+	}); p != nil {
+		c.c07P("OutputOffset:"+op, nil, p, nil)
+		return
+	}
+	if depth != 0 {
+		return
+	}
+	if off != int64(delivered) || (plain && buffered != 0) {
+		c.c07V("left-buffered", op, nil, det("output_offset", off, "delivered", delivered, "still_buffered", buffered))
+	}
+}
+
+// ---------------------------------------------------------------------------------------------
+// P7: degenerate top-level values — every fast-path scalar and every empty value, at top level and as the only
+// element one level down, through all entry points; and sequences of top-level values through one Encoder.
+
+type c07Named struct {
+	name string
+	v    any
+}
+
+func c07Degenerates() []c07Named {
+	base := []c07Named{
+		{"[]int{}", []int{}}, {"[]int(nil)", []int(nil)}, {"[]string{}", []string{}}, {"[]any{}", []any{}}, {"[][]int{}", [][]int{}},
+		{"[]c07Rec{}", []c07Rec{}}, {"map[string]int{}", map[string]int{}}, {"map[string]int(nil)", map[string]int(nil)},
+		{"map[int]int{}", map[int]int{}}, {"map[string]any{}", map[string]any{}}, {"[0]int{}", [0]int{}}, {"[0]string{}", [0]string{}},
+		{`""`, ""}, {"0", 0}, {"int8(0)", int8(0)}, {"uint64(0)", uint64(0)}, {"0.0", 0.0}, {"float32(0)", float32(0)},
+		{"false", false}, {"true", true}, {"(*int)(nil)", (*int)(nil)}, {"(*[]int)(nil)", (*[]int)(nil)}, {"nil", nil},
+		{"struct{}{}", struct{}{}}, {"c07Inner{}", c07Inner{}}, {"&c07Inner{}", &c07Inner{}}, {"time.Time{}", time.Time{}},
+		{"[]byte{}", []byte{}}, {"[]byte(nil)", []byte(nil)}, {"[0]byte{}", [0]byte{}},
+		{"Value([])", jsontext.Value("[]")}, {"Value({})", jsontext.Value("{}")}, {"Value(null)", jsontext.Value("null")},
+		{`Value("")`, jsontext.Value(`""`)}, {"Value( [ ] )", jsontext.Value(" [ ] ")}, {"Value(nil)", jsontext.Value(nil)},
+		{"&[]int{}", &[]int{}}, {"&map[string]int{}", &map[string]int{}}, {"new(string)", new(string)}, {"new(int)", new(int)},
+		{"c07JSON{[]}", c07JSON{"[]"}}, {"c07JSON{{}}", c07JSON{"{}"}}, {`c07Text{""}`, c07Text{""}}, {"c07To{[]}", c07To{"[]"}},
+		{"c07To{null}", c07To{"null"}}, {"c07Rec{}", c07Rec{}}, {"any([]int{})", any([]int{})},
+	}
+	out := append([]c07Named{}, base...)
+	for _, b := range base { // the only element one level down
+		out = append(out, c07Named{"[]any{" + b.name + "}", []any{b.v}})
+		out = append(out, c07Named{"map{k:" + b.name + "}", map[string]any{"k": b.v}})
+		out = append(out, c07Named{"struct{V:" + b.name + "}", struct{ V any }{b.v}})
+		out = append(out, c07Named{"struct{V omitempty:" + b.name + "}", struct {
+			V any `json:",omitempty"`
+		}{b.v}})
+	}
+	return out
+}
+
+func (c *Ctx) c07Degenerate(l *c07Local, r *rand.Rand, opts []c07Opt) {
+	vals := c07Degenerates()
+	for _, nv := range vals {
+		for _, o := range opts {
+			c.c07Marshal(l, r, c07Shape{name: "degenerate", v: nv.v}, o, 3)
+		}
+	}
+	l.hits["degenerate-values"] += int64(len(vals))
+
+	// sequences of top-level values through ONE Encoder: output must be each value followed by "\n", and after
+	// every call everything must have been delivered
+	nseq := c.N(400, 6000)
+	for si := 0; si < nseq; si++ {
+		o := opts[si%len(opts)]
+		n := 2 + r.IntN(5)
+		seq := make([]c07Named, n)
+		for i := range seq {
+			if r.IntN(6) == 0 {
+				seq[i] = c07Named{"rec", c07MakeRec(r, r.IntN(120), 0)}
+			} else {
+				seq[i] = vals[r.IntN(len(vals))]
+			}
+		}
+		for _, useBB := range []bool{false, true} {
+			w := &c07Writer{}
+			bb := new(bytes.Buffer)
+			var enc *jsontext.Encoder
+			names := make([]string, 0, n)
+			var expect []byte
+			det := func(kv ...any) map[string]any {
+				return c07Detail(append([]any{"opts", o.name, "sequence", strings.Join(names, " ; "), "bytes.Buffer", useBB}, kv...)...)
+			}
+			op := "Encoder/sequence/" + o.name
+			if p := guard(func() {
+				if useBB {
+					enc = jsontext.NewEncoder(bb, o.opts...)
+				} else {
+					enc = jsontext.NewEncoder(w, o.opts...)
+				}
+			}); p != nil {
+				c.c07P(op, nil, p, nil)
+				continue
+			}
+			for i, nv := range seq {
+				var want []byte
+				var err error
+				if p := guard(func() { want, err = json.Marshal(nv.v, o.opts...) }); p != nil || err != nil {
+					fail("c07 degenerate: Marshal(%s) %v %v", nv.name, p, err)
+				}
+				how := r.IntN(3)
+				if !o.tok {
+					how = 0
+				}
+				names = append(names, nv.name+[]string{"/MarshalEncode", "/WriteValue", "/WriteToken"}[how])
+				if p := guard(func() {
+					switch how {
+					case 0:
+						err = json.MarshalEncode(enc, nv.v)
+					case 1:
+						err = enc.WriteValue(jsontext.Value(want))
+					case 2:
+						var steps []c07Step
+						steps, err = c07Script(r, want, 0)
+						for _, s := range steps {
+							if err == nil {
+								err = s.apply(enc)
+							}
+						}
+					}
+				}); p != nil {
+					c.c07P(op, nil, p, det("index", i))
+					break
+				}
+				if err != nil {
+					c.c07V("error", op, nil, det("index", i, "err", err.Error()))
+					break
+				}
+				expect = append(append(expect, want...), '\n')
+				got := w.acc
+				if useBB {
+					got = bb.Bytes()
+				}
+				c.Case(op+strconv.Itoa(si)+nv.name, true)
+				if !c.c07CheckEq("differs", op, expect, got, det("index", i)) {
+					break
+				}
+				c.c07NothingBuffered(op, enc, len(got), !useBB, det)
+			}
+		}
+	}
+	l.hits["top-level-sequences"] += int64(nseq)
 }
 
 // ---------------------------------------------------------------------------------------------
@@ -1462,6 +1614,9 @@ func runC07(c *Ctx) {
 
 	// values larger than the 4 KiB buffer ceiling and than the 64 KiB pool limit
 	l := locals[0]
+	c.c07Degenerate(l, c.Rng, opts)
+	c.Note("phase degenerate: %.1fs", time.Since(t0).Seconds())
+	t0 = time.Now()
 	for _, n := range []int{4095, 4096, 4097, 5000, 12288, 65535, 65536, 65537, 70000, 200000} {
 		for which := 0; which < c07NumShapes; which++ {
 			if n > 70000 && which != 0 && which != 7 {
